@@ -72,7 +72,11 @@ fn main() {
         "events" => { finish(&out, gen::event_histories(seed, n, arg("--maxops", "25").parse().unwrap())); }
         "readonly" => { finish(&out, gen::readonly_histories(seed, n, arg("--maxops", "8").parse().unwrap(), arg("--crash", "0") == "1")); }
         "backends" => { finish(&out, gen::backend_sequences(seed, n)); }
-        "faults" => { if arg("--kind", "writer") == "replica" { finish(&out, gen::fault_replica_histories(seed, n)); } else { finish(&out, gen::fault_histories(seed, n, arg("--maxops", "8").parse().unwrap())); } }
+        "faults" => {
+            let kind = arg("--kind", "writer");
+            if kind == "replica" || kind == "replica-events" { finish(&out, gen::fault_replica_histories(seed, n, kind == "replica-events")); }
+            else { finish(&out, gen::fault_histories(seed, n, arg("--maxops", "8").parse().unwrap(), kind == "events")); }
+        }
         "tree" => { finish(&out, gen::tree_histories(seed, n, arg("--maxlen", "70").parse().unwrap())); }
         "layout" => { finish(&out, gen::layout_histories(seed, n, arg("--maxops", "14").parse().unwrap())); }
         "script" => { finish(&out, gen::script(&arg("--file", "/dev/stdin"))); }
